@@ -60,6 +60,13 @@ func with(base map[string]string, extra map[string]string) map[string]string {
 
 var baseManifest = pkgw.Manifest{Name: "app", Phases: []string{"p1", "p2"}, ConfigProps: map[string]string{"x": "integer"}}
 
+var dupPhaseManifest = pkgw.Manifest{Name: "app", Phases: []string{"p1", "p2", "p1"}, ConfigProps: map[string]string{"x": "integer"}}
+
+const (
+	lockImages = "  images:\n  - name: tool\n    image: quay.io/org/tool:v1\n"
+	lockFile   = "apiVersion: manifests.package-operator.run/v1alpha1\nkind: PackageManifestLock\nspec:\n  images:\n  - name: tool\n    image: quay.io/org/tool:v1\n    digest: sha256:aaaaaaaaaaaaaaaaaaaaaaaaaaaaaaaaaaaaaaaaaaaaaaaaaaaaaaaaaaaaaaaa\n"
+)
+
 func manifestWith(constraints string) string {
 	m := baseManifest
 	m.Constraints = constraints
@@ -620,6 +627,7 @@ func scenarios(quick bool) []scenario {
 		{Env: "k8s-1.27", Images: []string{"v1", "v2"}, Confs: []string{"none"}, Edits: 1, Pauses: 2, ODDeletes: 1},
 		{Env: "k8s-1.27", Images: []string{"v1", "v2"}, Confs: []string{"none"}, Edits: 1, Pauses: 1, StartPaused: true},
 		{Env: "k8s-1.27", Images: []string{"v1", "big", "big2", "huge"}, Confs: []string{"none"}, Edits: 2},
+		{Env: "k8s-1.27", Images: []string{"v1", "locked", "dupphase", "dupphase-locked"}, Confs: []string{"none"}, Edits: 2},
 	}
 	if !quick {
 		out = append(out,
@@ -634,7 +642,7 @@ func scenarios(quick bool) []scenario {
 
 func run(o checks.Opts) *report.Report {
 	rep := report.New("C16", "bfs")
-	rep.Rule = "explicit-state BFS: Package p whose image is switched among {valid v1, valid v2, templated, not in registry, no manifest, two manifests, malformed object YAML, object without phase annotation, the same object in two files / in two documents of one file, OpenShift-only, Kubernetes>=1.30, uniqueInScope, packages with a phase beyond the 1 MiB chunk limit (three 400 KiB objects; five 300-500 KiB objects; small, small, one 1 MiB object, small - the template's ObjectSlices are resolved against the store before comparing), and every manifest constraint entry of the grammar {no platform, [Kubernetes], [OpenShift]} x {no version, Kubernetes met/unmet, OpenShift met/unmet} as one entry and as two entries in either order} and whose config among {none, x:1, x:2, schema-violating}, 2-3 edits, pause/unpause, a foreign write to the ObjectDeployment landing before each API call of the pass (update conflict), every fault kind at every API call of the Package controller's pass, environments Kubernetes 1.27 / OpenShift 4.12, one system with all passes in one long-lived operator process, optional twin Package with the same manifest name; real Package controller + PackageDeployer + scripted registry; monitor on every Package pass; fresh-render differential oracle for valid specs"
+	rep.Rule = "explicit-state BFS: Package p whose image is switched among {valid v1, valid v2, templated, not in registry, no manifest, two manifests, malformed object YAML, object without phase annotation, the same object in two files / in two documents of one file, OpenShift-only, Kubernetes>=1.30, uniqueInScope, manifests declaring images with a manifest.lock.yaml (valid; a duplicated phase name with and without the lock file), packages with a phase beyond the 1 MiB chunk limit (three 400 KiB objects; five 300-500 KiB objects; small, small, one 1 MiB object, small - the template's ObjectSlices are resolved against the store before comparing), and every manifest constraint entry of the grammar {no platform, [Kubernetes], [OpenShift]} x {no version, Kubernetes met/unmet, OpenShift met/unmet} as one entry and as two entries in either order} and whose config among {none, x:1, x:2, schema-violating}, 2-3 edits, pause/unpause, a foreign write to the ObjectDeployment landing before each API call of the pass (update conflict), every fault kind at every API call of the Package controller's pass, environments Kubernetes 1.27 / OpenShift 4.12, one system with all passes in one long-lived operator process, optional twin Package with the same manifest name; real Package controller + PackageDeployer + scripted registry; monitor on every Package pass; fresh-render differential oracle for valid specs"
 	scs := scenarios(o.Quick())
 	rep.Bounds["systems"] = len(scs)
 	for i, sc := range scs {
@@ -667,9 +675,10 @@ func init() {
 		},
 		Subs: []*checks.Sub{{Name: "bfs", Shards: func(t string) int {
 			if t == "thorough" {
-				return 15
+				return 16
 			}
-			return 11
-		}, Run: run, Replay: replay, Parallel: true}},
+			return 12
+		}, Run: run, Replay: replay, Parallel: true},
+			{Name: "cluster-twin", Shards: func(t string) int { return len(twinScenarios(t != "thorough")) }, Run: runTwin, Replay: replayTwin, Parallel: true}},
 	})
 }
